@@ -51,6 +51,18 @@ impl SO3State {
     /// ```
     pub fn normalise(&mut self) -> Result<Self, StateError> {
         let norm = (self.x.powi(2) + self.y.powi(2) + self.z.powi(2) + self.w.powi(2)).sqrt();
+        let largest = self.x.abs().max(self.y.abs()).max(self.z.abs()).max(self.w.abs());
+        if norm.is_infinite() && largest.is_finite() {
+            // The squares overflowed although every component is finite: bring the largest
+            // component to 1 first, which keeps the direction.
+            return SO3State {
+                x: self.x / largest,
+                y: self.y / largest,
+                z: self.z / largest,
+                w: self.w / largest,
+            }
+            .normalise();
+        }
         if norm < 1e-9 {
             Err(StateError::ZeroMagnitude)
         } else {
